@@ -86,7 +86,7 @@ def build(shape, opts, cfg, mode='v', noise=None):
     other = ', _ => unreachable!()' if len(shape.variants) > 1 else ''
     for vi, f in enumerate(shape.variants):
         i, j, mi, mj = opts[vi]
-        sent = [10 * vi + k + 1 for k in range(f.n)]
+        sent = [(10 * vi + k) % 97 + 1 for k in range(f.n)]
         pre, ex = '', []
         for k in range(f.n):
             if k == i and mode == 'r':
@@ -163,6 +163,14 @@ def generate(tier):
                     cases.append(build(S.Shape('struct', [fl]), [o], cfg, 'v'))
                     if cfg != 'M':
                         cases.append(build(S.Shape('enum', [S.Fields('t', 1), fl]), [(0, 0 if with_mut else None, False, False), o], cfg, 'v'))
+        # more positions than a byte can index: 300 fields, markers at 255, 256, 258, 299
+        if cfg != 'M':
+            fl = S.Fields('t', 300)
+            for i_, j_ in ((255, 256), (258, 2), (2, 258), (299, 299), (256, 256)):
+                o = (i_, j_ if with_mut else None, True, with_mut)
+                cases.append(build(S.Shape('struct', [fl]), [o], cfg, 'v'))
+                if (i_, j_) in ((258, 2), (256, 256)):
+                    cases.append(build(S.Shape('enum', [S.Fields('t', 1), fl]), [(0, 0 if with_mut else None, False, False), o], cfg, 'v'))
         # other attributes / PhantomData on the non-designated fields
         if cfg != 'M':
             for fl in (S.Fields('t', 3), S.Fields('t', 4), S.Fields('n', 3)):
@@ -207,6 +215,8 @@ def generate(tier):
             r_ = tr(c)
             if r_:
                 cases.append(r_)
+    from .common import decoy_layer
+    cases += decoy_layer([c for c in cases if c is not None])
     seen, out = set(), []
     for c in cases:
         if c.key not in seen:
